@@ -656,6 +656,124 @@ def flatten_internal_bases(tree):
     return n
 
 
+def apply_partials(tree):
+    """`g = partial(f, a, k=e)` where the local g is bound once and only ever CALLED: every `g(x, j=y)` becomes `f(a, x, k=e, j=y)` and
+    the binding disappears.  The bound expressions must be plain references to names that are bound once (a partial evaluates them when
+    it is created, the call site when it is reached)."""
+    n = 0
+
+    def plain(e):
+        return isinstance(e, (ast.Name, ast.Constant)) or (isinstance(e, ast.Attribute) and plain(e.value))
+
+    for fn in [x for x in ast.walk(tree) if isinstance(x, (ast.FunctionDef, ast.AsyncFunctionDef))]:
+        changed = True
+        while changed:
+            changed = False
+            stores = {}
+            for x in ast.walk(fn):
+                if isinstance(x, ast.Name) and isinstance(x.ctx, (ast.Store, ast.Del)):
+                    stores[x.id] = stores.get(x.id, 0) + 1
+                elif isinstance(x, ast.arg):
+                    stores[x.arg] = stores.get(x.arg, 0) + 1
+                elif isinstance(x, (ast.FunctionDef, ast.AsyncFunctionDef, ast.ClassDef)) and x is not fn:
+                    stores[x.name] = stores.get(x.name, 0) + 1
+            for i, st in enumerate(fn.body):
+                if not (isinstance(st, ast.Assign) and len(st.targets) == 1 and isinstance(st.targets[0], ast.Name) and isinstance(st.value, ast.Call)):
+                    continue
+                c = st.value
+                fname = c.func.id if isinstance(c.func, ast.Name) else (c.func.attr if isinstance(c.func, ast.Attribute) and isinstance(c.func.value, ast.Name) and c.func.value.id == "functools" else None)
+                if fname != "partial" or not c.args or any(isinstance(x, ast.Starred) for x in c.args) or any(k.arg is None for k in c.keywords):
+                    continue
+                g = st.targets[0].id
+                if stores.get(g) != 1 or not all(plain(a) for a in c.args) or not all(plain(k.value) for k in c.keywords):
+                    continue
+                if any(stores.get(x.id, 0) > 1 for e in list(c.args) + [k.value for k in c.keywords] for x in ast.walk(e) if isinstance(x, ast.Name)):
+                    continue
+                loads = [x for x in ast.walk(fn) if isinstance(x, ast.Name) and x.id == g and isinstance(x.ctx, ast.Load)]
+                calls = [x for x in ast.walk(fn) if isinstance(x, ast.Call) and isinstance(x.func, ast.Name) and x.func.id == g]
+                if not calls or len(loads) != len(calls):
+                    continue
+                bound_kw = {k.arg for k in c.keywords}
+                if any(any(k.arg is None or k.arg in bound_kw for k in x.keywords) or any(isinstance(a, ast.Starred) for a in x.args) for x in calls):
+                    continue  # overriding a bound keyword / star arguments: left as it is
+                for x in calls:
+                    x.func = _copy(c.args[0])
+                    x.args = [_copy(a) for a in c.args[1:]] + list(x.args)
+                    x.keywords = [ast.keyword(arg=k.arg, value=_copy(k.value)) for k in c.keywords] + list(x.keywords)
+                del fn.body[i]
+                if not fn.body:
+                    fn.body.append(ast.copy_location(ast.Pass(), st))
+                ast.fix_missing_locations(fn)
+                n += 1
+                changed = True
+                break
+    return n
+
+
+def tables_to_branches(tree):
+    """`return TABLE[key](args)` / `x = TABLE[key](args)` with TABLE a module-level dict literal from constants to plain names that is
+    only ever subscripted: the lookup is written out as the if / elif chain it stands for (`if key == 'SM': return head(args)` ...,
+    `else: raise KeyError(key)`), so that a dispatch table reads like the branches it replaced"""
+    tables = {}
+    for st in tree.body:
+        if isinstance(st, ast.Assign) and len(st.targets) == 1 and isinstance(st.targets[0], ast.Name) and isinstance(st.value, ast.Dict) and st.value.keys \
+                and all(isinstance(k, ast.Constant) and isinstance(k.value, (str, int, bool, type(None))) for k in st.value.keys) \
+                and all(isinstance(v, ast.Name) or (isinstance(v, ast.Attribute) and isinstance(v.value, ast.Name)) for v in st.value.values):
+            tables[st.targets[0].id] = st.value
+    if not tables:
+        return 0
+    # every other reference must be a subscript load
+    for x in ast.walk(tree):
+        if isinstance(x, ast.Name) and x.id in tables:
+            pass
+    parents = {}
+    for par in ast.walk(tree):
+        for ch in ast.iter_child_nodes(par):
+            parents[id(ch)] = par
+    for x in ast.walk(tree):
+        if isinstance(x, ast.Name) and x.id in tables:
+            par = parents.get(id(x))
+            is_def = isinstance(par, ast.Assign) and par in tree.body and x in par.targets
+            is_lookup = isinstance(par, ast.Subscript) and par.value is x and isinstance(x.ctx, ast.Load) and isinstance(par.ctx, ast.Load)
+            if not (is_def or is_lookup):
+                tables.pop(x.id, None)
+    if not tables:
+        return 0
+    n = 0
+
+    def simple_key(e):
+        return isinstance(e, (ast.Name, ast.Constant)) or (isinstance(e, ast.Attribute) and simple_key(e.value))
+
+    for owner in ast.walk(tree):
+        for f in ("body", "orelse", "finalbody"):
+            blk = getattr(owner, f, None)
+            if not (isinstance(blk, list) and blk and isinstance(blk[0], ast.stmt)) or owner is tree:
+                continue
+            for i, st in enumerate(list(blk)):
+                val = st.value if isinstance(st, (ast.Return, ast.Assign)) else None
+                if not (isinstance(val, ast.Call) and isinstance(val.func, ast.Subscript) and isinstance(val.func.value, ast.Name) and val.func.value.id in tables
+                        and simple_key(val.func.slice)):
+                    continue
+                if isinstance(st, ast.Assign) and not (len(st.targets) == 1 and isinstance(st.targets[0], ast.Name)):
+                    continue
+                d = tables[val.func.value.id]
+                key = val.func.slice
+                chain = None
+                for k, v in reversed(list(zip(d.keys, d.values))):
+                    call = ast.Call(func=_copy(v), args=[_copy(a) for a in val.args], keywords=[_copy(kw) for kw in val.keywords])
+                    leaf = ast.Return(value=call) if isinstance(st, ast.Return) else ast.Assign(targets=[_copy(st.targets[0])], value=call)
+                    test = ast.Compare(left=_copy(key), ops=[ast.Eq()], comparators=[_copy(k)])
+                    if chain is None:
+                        chain = [ast.Raise(exc=ast.Call(func=ast.Name(id="KeyError", ctx=ast.Load()), args=[_copy(key)], keywords=[]), cause=None)]
+                    chain = [ast.If(test=test, body=[leaf], orelse=chain)]
+                new = chain[0]
+                ast.copy_location(new, st)
+                ast.fix_missing_locations(new)
+                blk[blk.index(st)] = new
+                n += 1
+    return n
+
+
 def _ensure_nf_imports(tree):
     """`import math as _nf_math` when a rewrite introduced `_nf_math.prod(..)`"""
     if not any(isinstance(x, ast.Name) and x.id == "_nf_math" for x in ast.walk(tree)):
@@ -674,7 +792,7 @@ def _ensure_nf_imports(tree):
 def normalise(tree):
     """in place; returns the number of rewrites.  Order: temporaries and tuple assignments, append loops, private helpers
     (whose bodies are then already in normal form), and temporaries / tuples once more for what the inlining exposed"""
-    total = flatten_internal_bases(tree) + namedtuples_to_tuples(tree) + unroll_literal_loops(tree) + partials_to_defs(tree) + split_on_shared_predicates(tree) + split_conditional_returns(tree)
+    total = flatten_internal_bases(tree) + tables_to_branches(tree) + namedtuples_to_tuples(tree) + unroll_literal_loops(tree) + apply_partials(tree) + partials_to_defs(tree) + split_on_shared_predicates(tree) + split_conditional_returns(tree)
     ast.fix_missing_locations(tree)
     total += _temps_and_tuples(tree)
     n = append_loops_to_comprehensions(tree) + fuse_comprehensions(tree)
